@@ -129,6 +129,24 @@ pub fn textbook_literals(basis: &[u8], src: &[u8], bs: usize) -> u64 {
 }
 
 /// a sink that takes at most `max` bytes per `write` call (what a pipe, a socket or a buffered file may do)
+/// a sink that takes part of a buffer and answers the NEXT call with `Interrupted` (EINTR between two partial writes)
+struct EintrWriter { out: Vec<u8>, max: usize, pending: bool }
+impl EintrWriter {
+    fn step(&mut self, b: &[u8]) -> std::io::Result<usize> {
+        if self.pending { self.pending = false; return Err(std::io::Error::from(std::io::ErrorKind::Interrupted)); }
+        let n = b.len().min(self.max); self.out.extend_from_slice(&b[..n]); if n < b.len() { self.pending = true; } Ok(n)
+    }
+}
+impl std::io::Write for EintrWriter {
+    fn write(&mut self, b: &[u8]) -> std::io::Result<usize> { self.step(b) }
+    fn flush(&mut self) -> std::io::Result<()> { Ok(()) }
+}
+impl tokio::io::AsyncWrite for EintrWriter {
+    fn poll_write(mut self: std::pin::Pin<&mut Self>, _: &mut std::task::Context<'_>, b: &[u8]) -> std::task::Poll<std::io::Result<usize>> { std::task::Poll::Ready(self.step(b)) }
+    fn poll_flush(self: std::pin::Pin<&mut Self>, _: &mut std::task::Context<'_>) -> std::task::Poll<std::io::Result<()>> { std::task::Poll::Ready(Ok(())) }
+    fn poll_shutdown(self: std::pin::Pin<&mut Self>, _: &mut std::task::Context<'_>) -> std::task::Poll<std::io::Result<()>> { std::task::Poll::Ready(Ok(())) }
+}
+
 struct ShortWriter { out: Vec<u8>, max: usize }
 impl std::io::Write for ShortWriter {
     fn write(&mut self, b: &[u8]) -> std::io::Result<usize> { let n = b.len().min(self.max); self.out.extend_from_slice(&b[..n]); Ok(n) }
@@ -488,6 +506,32 @@ Model queries: `sig` and `delta` (exact op list, literal data compared by length
         let use_cli = i % (if thorough { 10 } else { 6 }) == 0;
         run_pair(w, &p, &rtm, if use_cli { cli.as_ref() } else { None }, true, prop == "C16");
     }
+    // COPY OFFSETS beyond 4 GiB: a signature (as read from a .sig file) whose blocks carry large indices — the copy offset
+    // is index x block size in 64 bits, whatever the size of the basis that produced it
+    for (bs, idx) in [(65536usize, 65536u32), (65536, 70_001), (2048, 2_097_152), (512, u32::MAX), (8192, 524_288 + 3)] {
+        let block = rng.bytes(bs);
+        let mut sig = Signature::generate(&mut Cursor::new(&block), bs).expect("sig");
+        sig.blocks[0].index = idx;
+        sig.file_size = (u64::from(idx) + 1) * bs as u64;
+        let mut src = rng.bytes(7);
+        src.extend_from_slice(&block);
+        let want = u64::from(idx) * bs as u64;
+        for engine in 0..2 {
+            let (s_, sg) = (src.clone(), sig.clone());
+            let got = guarded(move || if engine == 0 { CopiaSync::with_block_size(bs).delta(Cursor::new(&s_), &sg).ok() } else { rt().block_on(AsyncCopiaSync::with_block_size(bs).delta(Cursor::new(&s_), &sg)).ok() });
+            w.count("high-index-signature");
+            match got {
+                Ok(Some(d)) => {
+                    let offs: Vec<u64> = d.ops.iter().filter_map(|o| if let DeltaOp::Copy { offset, .. } = o { Some(*offset) } else { None }).collect();
+                    if offs != vec![want] {
+                        w.fail(0, "copy-offset-beyond-4gib", &format!("block index {idx} x block size {bs}: engine {engine} emitted copy offsets {offs:?}, expected [{want}]"));
+                    }
+                }
+                Ok(None) => w.fail(0, "copy-offset-beyond-4gib", &format!("block index {idx} x block size {bs}: engine {engine} refused a valid signature")),
+                Err(()) => w.fail(0, "copy-offset-beyond-4gib", &format!("block index {idx} x block size {bs}: engine {engine} panicked")),
+            }
+        }
+    }
     // SLIDE COLLISIONS: a basis block B whose bytes sum to n·(its last byte), preceded in the source by that byte: the window one
     // position before B is a rotation of B with the SAME weak sum and different bytes (a false weak hit right before a true match);
     // and its (+1,−2,+1) neighbours. Whatever the scan remembers about the rejected window must not cost the match that follows.
@@ -721,6 +765,33 @@ query = `patch` with full ops; answer = verdict + length and FNV hash of the byt
                 if let Ok((r, o)) = &ga {
                     if r.is_ok() && StrongHash::compute(o).as_bytes() != d.checksum.as_bytes() {
                         w.fail(l, "success-on-wrong-bytes", &format!("async patch into a sink taking {max} bytes per write reported success but the sink holds {} bytes that do not hash to the checksum (case {i})", o.len()));
+                    }
+                }
+            }
+            // … and sinks that interleave partial writes with EINTR
+            {
+                let (b2c, dc) = (basis2.clone(), d.clone());
+                let gs = guarded(move || {
+                    let mut sw = EintrWriter { out: Vec::new(), max, pending: false };
+                    let r = copia::SyncBuilder::new().verify_checksum(true).build().patch(Cursor::new(&b2c), &dc, &mut sw);
+                    (r, sw.out)
+                });
+                if let Ok((r, o)) = &gs {
+                    if r.is_ok() && StrongHash::compute(o).as_bytes() != d.checksum.as_bytes() {
+                        w.fail(l, "success-on-wrong-bytes", &format!("sync patch into a sink that answers partial writes with EINTR reported success but the sink holds {} bytes that do not hash to the checksum (case {i})", o.len()));
+                    }
+                }
+                if async_hangs < 2 {
+                    let (b2c, dc) = (basis2.clone(), d.clone());
+                    let ga = crate::util::guarded_timeout(20, move || {
+                        let mut sw = EintrWriter { out: Vec::new(), max, pending: false };
+                        let r = rt().block_on(AsyncCopiaSync::new().patch(Cursor::new(&b2c), &dc, &mut sw));
+                        (r, sw.out)
+                    });
+                    if let Ok((r, o)) = &ga {
+                        if r.is_ok() && StrongHash::compute(o).as_bytes() != d.checksum.as_bytes() {
+                            w.fail(l, "success-on-wrong-bytes", &format!("async patch into a sink that answers partial writes with EINTR reported success but the sink holds {} bytes that do not hash to the checksum (case {i})", o.len()));
+                        }
                     }
                 }
             }
